@@ -5,7 +5,7 @@ package corebgp
 
 // ---- writes: every Write is one complete message (C04); what was written (C08 C09) ----
 
-//@ func fsm.sendNotification returns (err)
+//@ func fsm.sendNotification (f, n) returns (err)
 //@   requires [conn] f.conn != nil && n != nil
 //@   requires [fits] len(n.Data) <= 4075
 //@   at call Write#0 assert [is_the_notification] isNotifMsg(arg1, n.Code, n.Subcode, n.Data)
@@ -17,14 +17,14 @@ package corebgp
 //@   ensures [one_write] nwrites(f.conn) == old(nwrites(f.conn)) + 1
 //@   ensures [what] lastNotif(f.conn, n.Code, n.Subcode) && lastDataLen(f.conn) == len(n.Data) && (len(n.Data) >= 1 ==> lastData0(f.conn) == n.Data[0])
 
-//@ func fsm.sendKeepAlive returns (err)
+//@ func fsm.sendKeepAlive (f) returns (err)
 //@   requires [conn] f.conn != nil
 //@   modifies nwrites(f.conn), lastKind(f.conn)
 //@   ensures [one_write] nwrites(f.conn) == old(nwrites(f.conn)) + 1 && lastKind(f.conn) == 4
 //@   ensures [plain_error] err != nil ==> !hasType(err, *notificationError)
 
 // The NOTIFICATION inside a reader/validation error is sent iff it is outbound.
-//@ func fsm.handleNotificationInErr returns (r)
+//@ func fsm.handleNotificationInErr (f, err) returns (r)
 //@   requires [conn] f.conn != nil
 //@   requires [well_formed_error] hasType(err, *notificationError) ==> firstOf(err, *notificationError) != nil && firstOf(err, *notificationError).notification != nil && len(firstOf(err, *notificationError).notification.Data) <= 4075
 //@   let ne = firstOf(err, *notificationError)
@@ -35,18 +35,18 @@ package corebgp
 
 // ---- timers (C06) ----
 // Assumption (listed): a timer armed for one hour and stopped immediately has not fired.
-//@ func newStoppedTimer returns (t)
+//@ func newStoppedTimer () returns (t)
 //@   at call Stop#0 after assume result
 //@   ensures [stopped] t != nil && fresh(t) && !timerOn(t) && !timerMayHold(t)
 
-//@ func fsm.drainAndResetHoldTimer
+//@ func fsm.drainAndResetHoldTimer (f)
 //@   requires f.holdTimer != nil
 //@   modifies timerOn(f.holdTimer), timerDur(f.holdTimer), timerMayHold(f.holdTimer), timerEpoch(f.holdTimer)
 //@   ensures [rearmed] timerOn(f.holdTimer) && timerDur(f.holdTimer) == f.holdTime && !timerMayHold(f.holdTimer)
 //@   ensures [restarted] timerEpoch(f.holdTimer) > old(timerEpoch(f.holdTimer))
 
 // ---- reader life cycle (C10) ----
-//@ func fsm.startReading
+//@ func fsm.startReading (f)
 //@   requires [fields] readerFields(f)
 //@   ensures [fields] readerFields(f)
 //@   requires !readerRunning(f)
@@ -56,7 +56,7 @@ package corebgp
 //@   ensures [started] readerRunning(f) && f.readerMsgCh != nil && f.readerErrCh != nil && f.readerDoneCh != nil && f.closeReaderCh != nil && !chanClosed(f.closeReaderCh) && !onceDone(f.closeReaderOnce) && fresh(f.closeReaderCh) && fresh(f.readerDoneCh)
 
 // conn closed if there is one, reader joined, f.conn cleared
-//@ func fsm.cleanupConnAndReader
+//@ func fsm.cleanupConnAndReader (f)
 //@   requires [fields] readerFields(f)
 //@   ensures [fields] readerFields(f)
 //@   requires [reader_channels] readerRunning(f) ==> f.closeReaderCh != nil && f.readerDoneCh != nil
@@ -80,7 +80,7 @@ package corebgp
 //@   ensures n != nil ==> len(n.Data) <= 4075
 
 // ---- OPEN is sent once per connection, after GetCapabilities (C01, C14) ----
-//@ func fsm.sendOpenAndSetHoldTimer returns (s)
+//@ func fsm.sendOpenAndSetHoldTimer (f) returns (s)
 //@   requires [fields] readerFields(f)
 //@   ensures [fields] readerFields(f)
 //@   requires [self] fsmSelf(f) && f.conn != nil && !connClosed(f.conn) && !readerRunning(f)
@@ -102,7 +102,7 @@ package corebgp
 //@ callback cancelDialFn ()
 //@   ensures true
 
-//@ func fsm.dialPeer
+//@ func fsm.dialPeer (f)
 //@   requires [fields] readerFields(f)
 //@   ensures [fields] readerFields(f)
 //@   requires !dialPending(f)
@@ -113,7 +113,7 @@ package corebgp
 // ---- Idle / Connect / Active: retry pacing (C11) ----
 //@ chaninv fsm.dialResultCh(r) = r != nil && (r.err == nil ==> r.conn != nil && !connClosed(r.conn)) && (r.err != nil ==> r.conn == nil)
 
-//@ func fsm.idle returns (s)
+//@ func fsm.idle (f) returns (s)
 //@   requires [fields] readerFields(f)
 //@   ensures [next_state_ready] stateReq(f, s) && readerFields(f) && fsmSelf(f)
 //@   requires [self] fsmSelf(f) && !dialPending(f) && !readerRunning(f)
@@ -126,7 +126,7 @@ package corebgp
 
 // A dial result that is not going to be used is consumed and, if it carries a
 // connection, that connection is closed (no leak).
-//@ func fsm.dropDialResult
+//@ func fsm.dropDialResult (f)
 //@   requires [fields] readerFields(f)
 //@   ensures [fields] readerFields(f)
 //@   requires f.dialResultCh != nil
@@ -139,7 +139,7 @@ package corebgp
 // Connect: a failed dial leads to Idle (never straight back to Connect/Active: no
 // busy redial); the retry timer abandons the pending attempt and starts a new
 // one; every dial result is consumed and a connection that is not used is closed.
-//@ func fsm.connect returns (s)
+//@ func fsm.connect (f) returns (s)
 //@   requires [fields] readerFields(f)
 //@   ensures [next_state_ready] stateReq(f, s) && readerFields(f) && fsmSelf(f)
 //@   requires [self] fsmSelf(f) && dialPending(f) && f.dialResultCh != nil && f.cancelDialFn != nil && f.connectRetryTimer != nil && !readerRunning(f)
@@ -156,7 +156,7 @@ package corebgp
 
 // Active: an inbound FSM sends its OPEN at once; an outbound FSM waits for the
 // connect-retry timer, re-arms it and dials (passive peers have no outbound FSM).
-//@ func fsm.active returns (s)
+//@ func fsm.active (f) returns (s)
 //@   requires [fields] readerFields(f)
 //@   ensures [next_state_ready] stateReq(f, s) && readerFields(f) && fsmSelf(f)
 //@   requires [self] fsmSelf(f) && !dialPending(f) && !readerRunning(f) && (f.conn == nil ==> f.connectRetryTimer != nil) && (f.conn != nil ==> !connClosed(f.conn))
@@ -171,7 +171,8 @@ package corebgp
 
 // ---- OpenSent (C02 C06 C08 C09 C10 C12) ----
 // arm: 0 close request, 1 hold timer, 2 reader error, 3 message.
-//@ func fsm.openSent$1 returns (to, err)
+//@ func fsm.openSent$1 () returns (to, err)
+//@   local f #0 *fsm
 //@   requires [self] fsmSelf(f) && connUp(f) && f.holdTimer != nil
 //@   ghostvar arm int = -1
 //@   ghostvar rerrIsN bool = false
@@ -232,7 +233,7 @@ package corebgp
 
 // openSent: whatever the inner function decides, a connection that does not
 // progress to OpenConfirm is torn down (closed, reader joined, hold timer stopped).
-//@ func fsm.openSent returns (to, err)
+//@ func fsm.openSent (f) returns (to, err)
 //@   ghostvar innerIsN bool = false
 //@   ghostvar innerN int = 0
 //@   at call openSent$1#0 after set innerIsN = hasType(result1, *notificationError)
@@ -253,7 +254,8 @@ package corebgp
 
 // ---- OpenConfirm (C06 C09 C10) ----
 // arm: 0 close request, 1 hold timer, 2 keepalive timer, 3 reader error, 4 message.
-//@ func fsm.openConfirm$1 returns (to, err)
+//@ func fsm.openConfirm$1 () returns (to, err)
+//@   local f #0 *fsm
 //@   requires [self] fsmSelf(f) && connUp(f) && sessionTimers(f)
 //@   ghostvar arm int = -1
 //@   ghostvar nka int = 0
@@ -285,7 +287,7 @@ package corebgp
 //@   ensures [message_arm_always_reports] arm == 4 && to == 1 ==> hasType(err, *notificationError)
 //@   ensures [error_well_formed] err != nil ==> errWellFormed(err)
 
-//@ func fsm.openConfirm returns (to, err)
+//@ func fsm.openConfirm (f) returns (to, err)
 //@   ghostvar innerIsN bool = false
 //@   ghostvar innerN int = 0
 //@   at call openConfirm$1#0 after set innerIsN = hasType(result1, *notificationError)
@@ -306,7 +308,7 @@ package corebgp
 
 // WriteUpdate: one complete UPDATE message per successful call, on the session's
 // own connection only; nothing is written once the writer has been closed.
-//@ func updateMessageWriter.WriteUpdate returns (err)
+//@ func updateMessageWriter.WriteUpdate (u, b) returns (err)
 //@   requires [writer] u.conn != nil && u.closeCh != nil && u.resetKATimerCh != nil
 //@   requires [fits] len(b) <= 4077
 //@   at call Write#0 assert [one_update_message] len(arg1) == 19 + len(b) && markerOK(arg1) && be16(arg1, 16) == 19 + len(b) && arg1[18] == 2 && (forall i :: 0 <= i && i < len(b) ==> arg1[19+i] == b[i]) && arg0 == u.conn
@@ -317,7 +319,11 @@ package corebgp
 
 // The keepalive-timer manager goroutine: resets the keepalive timer on every
 // signal iff the hold time is non-zero; returns when told to.
-//@ func fsm.established$1
+//@ func fsm.established$1 ()
+//@   local closeKAManagerCh #1 chan struct{}
+//@   local f #0 *fsm
+//@   local kaManagerDoneCh #0 chan struct{}
+//@   local resetKATimerCh #2 chan struct{}
 //@   requires f != nil && f.keepAliveTimer != nil && kaManagerDoneCh != nil && !chanClosed(kaManagerDoneCh) && closeKAManagerCh != nil && resetKATimerCh != nil
 //@   ghostvar stopSeen bool = false
 //@   at select#0 case 0 set stopSeen = true
@@ -326,7 +332,10 @@ package corebgp
 //@   modifies timerOn, timerDur, timerMayHold, timerEpoch, chanClosed
 
 // arm: 0 close request, 1 hold timer, 2 keepalive timer, 3 reader error, 4 message.
-//@ func fsm.established$2 returns (to, err)
+//@ func fsm.established$2 () returns (to, err)
+//@   local closeKAManagerCh #0 chan struct{}
+//@   local f #0 *fsm
+//@   local resetKATimerCh #1 chan struct{}
 //@   requires [fields] readerFields(f)
 //@   ensures [fields] readerFields(f)
 //@   requires [self] fsmSelf(f) && connUp(f) && estTimers(f) && resetKATimerCh != nil && closeKAManagerCh != nil && !chanClosed(closeKAManagerCh) && closeKAManagerCh != f.closeReaderCh
@@ -371,7 +380,7 @@ package corebgp
 // established: the keepalive manager is started before OnEstablished; OnClose is
 // called exactly once on every path, after the writer has been closed, the
 // connection torn down, the reader and the keepalive manager joined.
-//@ func fsm.established returns (to, err)
+//@ func fsm.established (f) returns (to, err)
 //@   ghostvar innerIsN bool = false
 //@   ghostvar innerN int = 0
 //@   at call established$2#0 after set innerIsN = hasType(result1, *notificationError)
@@ -400,7 +409,9 @@ package corebgp
 // One iteration = one message: 19 header octets, then exactly length-19 body
 // octets, then exactly one hand-over (message or error) or a close. Every error
 // sent is tied to a fault actually present in the header that was read.
-//@ func fsm.read
+//@ func fsm.read (f)
+//@   local header #0 []uint8
+//@   local i #0 int
 //@   requires f != nil && f.conn != nil && f.readerDoneCh != nil && !chanClosed(f.readerDoneCh) && f.closeReaderCh != nil && f.readerErrCh != nil && f.readerMsgCh != nil
 //@   loop#0 invariant [reader] f.conn != nil && f.readerDoneCh != nil && !chanClosed(f.readerDoneCh) && f.closeReaderCh != nil && f.readerErrCh != nil && f.readerMsgCh != nil
 //@   loop#1 invariant [marker_so_far] 0 <= i && i <= 16 && len(header) == 19 && (forall j :: 0 <= j && j < i ==> header[j] == 255)
@@ -420,7 +431,7 @@ package corebgp
 //@ pure readerFields(f) = f.closeReaderCh != f.doneCh && f.closeReaderCh != f.closeCh && (readerRunning(f) ==> f.closeReaderCh != nil && f.readerDoneCh != nil) && (f.closeReaderCh != nil ==> f.readerDoneCh != nil && (chanClosed(f.closeReaderCh) == onceDone(f.closeReaderOnce))) && (dialPending(f) ==> f.cancelDialFn != nil && f.dialResultCh != nil) && (f.cancelDialFn != nil ==> f.dialResultCh != nil)
 
 // cleanup: dial cancelled and consumed, connection closed, reader joined, timers stopped
-//@ func fsm.cleanup
+//@ func fsm.cleanup (f)
 //@   requires [self] fsmSelf(f) && readerFields(f) && (f.cancelDialFn != nil ==> f.dialResultCh != nil)
 //@   loop#0 invariant [stopped_so_far] -1 <= rangeindex && rangeindex <= 3 && f.conn == nil && !readerRunning(f) && (old(f.cancelDialFn) != nil ==> !dialPending(f)) && (old(f.conn) != nil ==> connClosed(old(f.conn))) && (rangeindex >= 0 && f.connectRetryTimer != nil ==> !timerOn(f.connectRetryTimer)) && (rangeindex >= 1 && f.holdTimer != nil ==> !timerOn(f.holdTimer)) && (rangeindex >= 2 && f.keepAliveTimer != nil ==> !timerOn(f.keepAliveTimer)) && (rangeindex >= 3 ==> !timerOn(f.idleHoldTimer))
 //@   modifies f.conn, connClosed, readerRunning(f), dialPending(f), chanClosed(f.closeReaderCh), onceDone(f.closeReaderOnce), timerOn, timerMayHold, timerEpoch
@@ -436,7 +447,10 @@ package corebgp
 // is disabled); a FSM disabled while it waits for approval with a live session
 // (left OpenSent or later) sends Cease first; on return everything it started is
 // stopped and joined and doneCh is closed.
-//@ func fsm.run
+//@ func fsm.run (f)
+//@   local err #0 error
+//@   local t #0 stateTransition
+//@   local toBefore #0 fsmState
 //@   requires [self] fsmSelf(f) && !dialPending(f) && !readerRunning(f) && f.closeReaderCh == nil && f.cancelDialFn == nil && f.doneCh != nil && !chanClosed(f.doneCh) && (f.conn != nil ==> !connClosed(f.conn))
 //@   ghostvar echoTo int = 0
 //@   at select#0 case 1 set echoTo = 0
@@ -460,6 +474,8 @@ package corebgp
 // closes the channel of the FSM when it returns. (A failed ResolveTCPAddr of a
 // literal address would send twice; unreachable for the literal IPs corebgp
 // builds the address from: not claimed, see DESIGN section 8 "latent".)
-//@ func fsm.dialPeer$1
+//@ func fsm.dialPeer$1 ()
+//@   local dialResultCh #0 chan *dialResult
+//@   local f #0 *fsm
 //@   requires f != nil && f.peer != nil && dialResultCh != nil && f.dialResultCh != nil && !chanClosed(f.dialResultCh)
 //@   modifies chanClosed(f.dialResultCh)
